@@ -104,8 +104,8 @@ func checkRingOrigin(w *World, r *Report, rule string) {
 		g := w.FGI(pop)
 		site := w.fnPos(pop)
 		okR := false
-		for _, x := range g.returns {
-			rs := g.ins[x].(*ssa.Return).Results
+		for _, rc := range g.retCases() {
+			rs := rc.res
 			if w.pathOf(rs[len(rs)-1]) != "K:true" {
 				continue
 			}
@@ -132,9 +132,9 @@ func checkRingOrigin(w *World, r *Report, rule string) {
 				}
 			}
 		}
-		for _, x := range g.returns {
-			rs := g.ins[x].(*ssa.Return).Results
-			if w.pathOf(rs[len(rs)-1]) == "K:true" && !g.Before(adv, x) {
+		for _, rc := range g.retCases() {
+			rs := rc.res
+			if w.pathOf(rs[len(rs)-1]) == "K:true" && !rc.before(g, adv) {
 				okR = false
 			}
 		}
@@ -180,6 +180,13 @@ func checkRingOrigin(w *World, r *Report, rule string) {
 			asc := ascendingFromZero(stripConv(idxPhi))
 			if !asc {
 				ok, detail = false, "the transfer does not run i = 0,1,2,...: elements come out in another order"
+			}
+		}
+		if !ok {
+			// a form the textual test does not recognise (e.g. an incrementally advanced position) but whose
+			// offsets the affine rule decides: result[i] = items[head+1+i mod size]
+			if decided, holds := popnTransferAffine(w); decided && holds {
+				ok = true
 			}
 		}
 		r.Check(ok, rule, "RingBuffer.PopN:transfer", "PopN copies result[i] from the slot head+1+i (mod size) for ascending i", site, detail)
